@@ -126,7 +126,7 @@ def build_cases(ctx, sink):
                 n += 1
                 c = dict(o)
                 c.update(path=path, spell=sp, hello=rng.choice(["tls13", "tls12", "alpn5k", "alpn12k"]), split=rng.choice(SPLITS), id=n)
-                if path == "sni" and c["hello"].startswith("alpn") and sp != "huge":
+                if path == "sni" and c["hello"].startswith("alpn") and not err:
                     c["spell"] = sp = "big"      # more data behind a long hello than the hello is long
                 if sp in ("tiny", "line") and not err and path != "ws" and rng.random() < 0.3:
                     c["conf"] = "wt"          # a write timeout on the listener changes nothing (small replies: a write never waits)
@@ -136,6 +136,27 @@ def build_cases(ctx, sink):
                 (ws if path == "ws" else tcp).append(c)
     tcp += rng.sample(rtc, min(len(rtc), 64 if not ctx.thorough else 480))
     return tcp, ws, len(by)
+
+
+def confirm(ctx, r, sub, runner):
+    """Every alarm is reproduced once more before it is reported (DESIGN 4.2): the failing cases are played again;
+    a case that does not fail again with the same clause is dropped from the failures and makes the run inconclusive."""
+    fails = r.of_kind("fail")
+    if not fails or runner is None:
+        return
+    again = os.path.join(ctx.tmp, "c09.%s.again" % sub)
+    for i, f in enumerate(fails):
+        f["case"]["id"] = i
+    vf.write_ndjson(again, [f["case"] for f in fails])
+    r2 = runner(ctx, again, "C09 %s reproduction" % sub, lanes=2, timeout=600)
+    if r2 is None:
+        return
+    seen = {(f["case"].get("id"), f.get("features", {}).get("clause")) for f in r2.of_kind("fail")}
+    lost = [f for f in fails if (f["case"]["id"], f.get("features", {}).get("clause")) not in seen]
+    if lost:
+        ctx.inconclusive("%s: %d of %d alarm(s) did not reproduce when the case was played again (not reported); first: %s / %s"
+                         % (sub, len(lost), len(fails), lost[0].get("msg", "")[:300], json.dumps(lost[0]["case"].get("sc"))))
+        r.records = [x for x in r.records if x not in lost]
 
 
 def take(ctx, r, sub):
@@ -259,6 +280,7 @@ def run(ctx):
         total += s["ran"]
         ctx.cover(sub, traces_validated_against_impl=s["ran"] - s["hangs"] - s["skipped"], evaluations=s["evaluations"],
                   distinct_nontrivial=s["distinct_nontrivial"], samples=s.get("samples") or [])
+        confirm(ctx, r, sub, fn)
         take(ctx, r, sub)
     ctx.cover(rule="one case per (scenario of the TLC universe, path, byte spelling); the expected streams are the terminal states TLC reached for that scenario; "
                    "evaluations = endpoint streams compared; non-trivial = distinct case with data in both directions")
